@@ -19,7 +19,7 @@ BOUNDS = {
     'reph': (4, 6, 4, 16), 'split': (4, 6, 4, 16), 'backspace_step': (4, 6, 1, 1), 'layout_values': (0, 0, 1, 1),
     'phonetic_api': (1, 2, 8, 16), 'fixed_api': (1, 2, 8, 16), 'history_independence': (1, 2, 1, 1),
     'learn_recall': (1, 1, 1, 1), 'user_files': (1, 2, 1, 1), 'update_engine': (1, 1, 1, 1), 'smart_quote': (1, 2, 1, 1),
-    'ansi': (1, 1, 1, 1), 'emoji_tables': (1, 2, 8, 16), 'suffix_forms': (1, 2, 1, 1), 'fixed_rules': (3, 5, 8, 16),
+    'ansi': (1, 1, 1, 1), 'emoji_tables': (1, 2, 8, 16), 'suffix_forms': (1, 2, 1, 1), 'fixed_rules': (4, 5, 8, 16),
 }
 
 
@@ -155,3 +155,30 @@ def replay(path):
     finally:
         cleanup()
     return 0
+
+
+def known_finding_status(kf):
+    """re-execute the concrete input of an open known finding against the current tree"""
+    cond = kf.get('still_fails_if')
+    if not cond:
+        return 'not re-executed'
+    hs = [json.loads(l) for l in open(os.path.join(ROOT, 'findings', 'histories.jsonl')) if l.strip()]
+    h = [x for x in hs if x.get('id') == cond['history']]
+    if not h:
+        return 'history not found'
+    exe, err = _driver()
+    if exe is None:
+        return 'driver does not build'
+    try:
+        hh = dict(h[0])
+        hh['user_dir'] = '/tmp/riti-verif-kf-%d' % os.getpid()
+        r = DR.run_histories(exe, [hh])[0]
+        import shutil
+        shutil.rmtree(hh['user_dir'], ignore_errors=True)
+        (a, fa), (b, fb) = cond['trace_fields_differ']
+        va, vb = r['trace'][a].get(fa), r['trace'][b].get(fb)
+        if r.get('panic') is None and va != vb:
+            return 're-executed on the current tree: still fails (%r vs %r)' % (va, vb)
+        return 're-executed on the current tree: no longer fails'
+    except Exception as ex:
+        return 're-execution failed: %r' % (ex,)
